@@ -31,7 +31,11 @@ KIND_WRITERS = {
 
 META["explanation"] += " " + '(PTR-follow, shared by C08 and C12) sibling cross-check over every delegation `value_->m(...)` in the public members of Value: the member asked of the pointee follows pointers itself (it reads value_) or is the caller; the Is...() predicates asked the one-level private tests.'
 
-def run(ctx):
+META["explanation"] += " " + 'Taken over unchanged from other modules because a seeded change to this property was reported by them (rules.common.shared): HC-confirm from C13; TB-bounds/UNS-shift/SB-roundcarry from C09; BORROW from C05; SB-bytes from C14; FX-utf/X-surrogate from C06.'
+
+META["explanation"] += " " + 'Also taken over (a rule id already present here is kept as id/module): BORROW from C16; ALIAS from C14.'
+
+def _run_own(ctx):
     m = ctx.pattern()
     rules = []
     ue, umap, hexlabels, uwhere = jsontab.unescape_map(m)
@@ -263,3 +267,23 @@ def run(ctx):
     from rules.common import rule_pointer_follow
     rules.append(rule_pointer_follow(ctx, m))
     return rules
+
+
+def run(ctx):
+    rules_ = list(_run_own(ctx) or [])
+    from rules.common import shared
+    have = set(r_.rid for r_ in rules_)
+    rules_ += [r_ for r_ in shared(ctx, 'C13', ['HC-confirm']) if r_.rid not in have]
+    rules_ += [r_ for r_ in shared(ctx, 'C09', ['TB-bounds', 'UNS-shift', 'SB-roundcarry']) if r_.rid not in have]
+    rules_ += [r_ for r_ in shared(ctx, 'C05', ['BORROW']) if r_.rid not in have]
+    rules_ += [r_ for r_ in shared(ctx, 'C14', ['SB-bytes']) if r_.rid not in have]
+    rules_ += [r_ for r_ in shared(ctx, 'C06', ['FX-utf', 'X-surrogate']) if r_.rid not in have]
+    for r_ in shared(ctx, 'C16', ['BORROW']):
+        if r_.rid in set(x.rid for x in rules_):
+            r_.rid = r_.rid + "/C16"
+        rules_.append(r_)
+    for r_ in shared(ctx, 'C14', ['ALIAS']):
+        if r_.rid in set(x.rid for x in rules_):
+            r_.rid = r_.rid + "/C14"
+        rules_.append(r_)
+    return rules_
